@@ -249,10 +249,13 @@ func runC09(c *Ctx) {
 		// branch's undo log exactly as they were
 		allOK := true
 		partial := ""
+		okBranch := map[int]bool{}
 		for bi := len(run.Branches) - 1; bi >= 0; bi-- {
 			tBefore := w.DumpTable(sc.Table)
 			_, hadLog := run.undoLogOf(run.Branches[bi])
-			if !run.Rollback(bi) {
+			if run.Rollback(bi) {
+				okBranch[bi] = true
+			} else {
 				allOK = false
 				_, hasLog := run.undoLogOf(run.Branches[bi])
 				if tAfter := w.DumpTable(sc.Table); tAfter != tBefore || hadLog != hasLog {
@@ -266,19 +269,13 @@ func runC09(c *Ctx) {
 		op := strings.Join(append(cs.headerToks(), run.Toks...), " ")
 		c.Out.Case(cid, "C09", op, strings.Join(run.Obs, " "))
 		class, detail := "", ""
+		// The branch whose (last) item finds a foreign write on one of its rows must answer failure; that its
+		// failed delivery changes nothing is checked above (`partial`).  Rows are NOT compared across the
+		// whole sequence of deliveries: the harness rolls every branch back even after a failure (a
+		// coordinator would stop), and an earlier branch may legitimately restore its own image of the row.
 		for k, bi := range dirty {
-			changed := (pre[k] == nil) != (post[k] == nil)
-			if pre[k] != nil && post[k] != nil {
-				// with only-care-update-columns an earlier branch may legitimately restore OTHER columns of the
-				// row; the columns the dirty item tracks (where the foreign write sits) must be as they were
-				for _, ci := range dirtyCols[k] {
-					if ci < len(pre[k]) && ci < len(post[k]) && pre[k][ci] != post[k][ci] {
-						changed = true
-					}
-				}
-			}
-			if changed {
-				class, detail = "foreign_write_overwritten", fmt.Sprintf("row %s was %v before the rollback and is %v after it (branch %d)", k, pre[k], post[k], bi+1)
+			if okBranch[bi] {
+				class, detail = "foreign_write_overwritten", fmt.Sprintf("row %s carries a foreign write (now %v, before the rollback %v) but branch %d answered rollbacked", k, post[k], pre[k], bi+1)
 			}
 		}
 		if class == "" && len(dirty) > 0 && allOK {
